@@ -281,6 +281,16 @@ class MetadorDataset(MetadorNode):
 
     # manually assembled from public methods which h5py.Dataset provides
     _self_RO_FORBIDDEN = {"resize", "make_scale", "write_direct", "flush"}
+    # ... and from the ones that yield the contents
+    _self_SKEL_FORBIDDEN = {
+        "get",
+        "__array__",
+        "astype",
+        "asstr",
+        "fields",
+        "read_direct",
+        "iter_chunks",
+    }
 
     def __getattr__(self, key):
         if hasattr(type(self), key):
@@ -289,7 +299,7 @@ class MetadorDataset(MetadorNode):
             raise UnsupportedOperationError(key)
         if self.acl[NodeAcl.read_only] and key in self._self_RO_FORBIDDEN:
             self._guard_acl(NodeAcl.read_only, key)
-        if self.acl[NodeAcl.skel_only] and key == "get":
+        if self.acl[NodeAcl.skel_only] and key in self._self_SKEL_FORBIDDEN:
             self._guard_acl(NodeAcl.skel_only, key)
 
         return getattr(self.__wrapped__, key)
@@ -298,6 +308,16 @@ class MetadorDataset(MetadorNode):
     def __getitem__(self, *args, **kwargs):
         self._guard_acl(NodeAcl.skel_only, "__getitem__")
         return self.__wrapped__.__getitem__(*args, **kwargs)
+
+    # ... also the other protocols that yield the contents
+
+    def __iter__(self):
+        self._guard_acl(NodeAcl.skel_only, "__iter__")
+        return iter(self.__wrapped__)
+
+    def __contains__(self, val):
+        self._guard_acl(NodeAcl.skel_only, "__contains__")
+        return val in self.__wrapped__
 
     # prevent mutating method calls of node is marked as read_only
 
